@@ -28,6 +28,12 @@ def coq_obligations(ctx, spec, broken):
                 broken.append(('axioms', 'theorem %s is not closed: %s' % (t, a[:300])))
     except RuntimeError as e:
         broken.append(('proof', str(e)))
+    if ctx.tier == 'thorough' and ok:
+        ck, summ = C.coqchk(ctx, spec['module'])
+        cov['coqchk'] = summ
+        cov['checker_cmd'] += '; coqchk -silent -o VQ.' + spec['module']
+        if not ck:
+            broken.append(('coqchk', 'coqchk does not accept the compiled development: ' + summ[-600:]))
 
 
 def slice_sample(path, n=1):
